@@ -63,6 +63,14 @@ def h : Handler := fun op j =>
   | "ucb" => do
       let r : Except Err (List (Option Rat)) := upperConcBounds (← getComps j "comps") (← getRatList j "init")
       pure (showExc (fun l => "[" ++ ",".intercalate (l.map showBound) ++ "]") r)
+  | "sane_nan" => do
+      let rtol ← getRatOr j "rtol" (saneRtolDefault : Rat)
+      let x ← (← getArr j "x").mapM fun v => match v with
+        | .null => pure (none : Option Rat)
+        | _ => do pure (some (← asRat v))
+      pure (showExc showBool (resultIsSaneNan rtol (← getComps j "comps") (← getRatList j "init") x))
+  | "dissolved_int" => do
+      pure (showExc showIntList (dissolvedIntArray (← getNatList j "phases") (← getRxns j "rxns") (← getIntList j "c")))
   | "sane" => do
       let rtol ← getRatOr j "rtol" (saneRtolDefault : Rat)
       pure (showExc showBool (resultIsSane rtol (← getComps j "comps") (← getRatList j "init") (← getRatList j "x")))
